@@ -80,7 +80,10 @@ def rules_case(draw):
                                       ['cmp', ['bin', '/', ['num', 1], empty], [['>=', ['num', 0]]]],
                                       # next() without a default over an empty selection has no value (an exhausted generator) - it is not None
                                       ['cmp', ['nextgen', ['attr', 'r', 'item'], 'r', ['name', 'orders'], ['lit', False], None], [['!=', ['str', 'cancelled']]]],
-                                      ['not', ['nextgen', ['name', 'r'], 'r', ['name', 'receipts'], ['cmp', ['attr', 'r', 'amount'], [['>', ['num', 10 ** 9]]]], None]]]))
+                                      ['not', ['nextgen', ['name', 'r'], 'r', ['name', 'receipts'], ['cmp', ['attr', 'r', 'amount'], [['>', ['num', 10 ** 9]]]], None]],
+                                      # a row has no such column: subscripting it is an error (not None), as is subscripting an empty source
+                                      ['cmp', ['sub', ['sub', ['name', 'orders'], ['num', 0]], ['str', 'nosuchcolumn']], [['!=', ['str', 'cancelled']]]],
+                                      ['not', ['sub', ['sub', ['name', 'receipts'], ['num', -1]], ['str', 'Status']]]]))
             rs.insert(draw(st.integers(0, len(rs))), {'name': 'Never Evaluable', 'match': m, 'category': draw(st.sampled_from(['', 'NeverCat'])), 'subcategory': '', 'merchant': None,
                                                      'priority': None, 'tags': ['never-evaluable'], 'lets': [], 'fields': []})
             continue
